@@ -130,6 +130,8 @@ M = [
  ("C14", "guitar_counts_string_length", INS, "        if hasattr(notes, \"notes\"):\n            notes = notes.notes\n        if not isinstance(notes, list):\n            notes = [notes]\n        if len(notes) > 6:", "        if len(notes) > 6:"),
  ("C14", "composition_eq_identity", COMP, "        return self.tracks == other.tracks\n", "        return self is other\n"),
  ("C14", "from_chords_rest_not_split", TRK, "            else:\n                add_item(None, duration)\n", "            else:\n                self.add_notes(None, duration)\n"),
+ ("C14", "from_chords_never_advances", TRK, "                duration = value.subtract(duration, dur)\n", "                duration = duration\n"),
+ ("C16", "vlq_loop_forgets_shift", MT, "        length = int(log(max(value, 1), 0x80)) + 1\n", "        length = 1\n        v = value\n        while v > 0x7F:\n            length += 1\n"),
  # ---------------- C11
  ("C11", "bar_transpose_skips_last", BAR, "        for cont in self.bar:\n            if self._is_note(cont[2]):\n                cont[2].transpose(interval, up)\n", "        for cont in self.bar[:-1] if len(self.bar) > 3 else self.bar:\n            if self._is_note(cont[2]):\n                cont[2].transpose(interval, up)\n"),
  ("C11", "is_note_accepts_rest", BAR, "        return isinstance(note, NoteContainer)\n", "        return True\n"),
